@@ -37,3 +37,5 @@ def run(ctx):
     base.run_twin(ctx, "linear_vs_normal_equations", scns)
     large = [TW.gen_c02_large(ctx.seed, i) for i in range(ctx.scale(6, 60))]
     base.run_twin(ctx, "linear_vs_normal_equations", large, shrink=False)
+    wide = [TW.gen_c02_wide(ctx.seed, i) for i in range(ctx.scale(9, 90))]
+    base.run_twin(ctx, "linear_vs_normal_equations", wide, shrink=False)
